@@ -291,7 +291,110 @@ class Inliner:
             s.exc = T().visit(s.exc)
         return s
 
+    def _inline_cm(self, s, stack, depth):
+        """`[async] with self.cm(args) [as v]: BODY` where cm is a generator
+        decorated with (async)contextmanager whose body is
+        PRE; try: yield [X] finally: POST   (or PRE; yield [X]; POST)
+        becomes  PRE; [v = X]; try: BODY finally: POST."""
+        if len(s.items) != 1 or not isinstance(s.items[0].context_expr,
+                                               ast.Call):
+            return None
+        call = s.items[0].context_expr
+        if depth >= self.max_depth:
+            return None
+        r = self._resolve_any(call)
+        if r is None:
+            return None
+        how, name, fn = r
+        decos = [ast.unparse(d) for d in fn.decorator_list]
+        if not any(d.split(".")[-1] in ("contextmanager",
+                                        "asynccontextmanager")
+                   for d in decos):
+            return None
+        if name in self.primitives or name in stack or \
+                not self._inlinable(fn):
+            return None
+        params = [a.arg for a in fn.args.args]
+        if how == "method":
+            params = params[1:]
+        if call.keywords or len(call.args) != len(params):
+            return None
+        self.n += 1
+        suffix = "__%s_%d" % (name.strip("_"), self.n)
+        body = acopy(fn.body)
+        if body and isinstance(body[0], ast.Expr) and isinstance(
+                body[0].value, ast.Constant):
+            body = body[1:]
+        locals_ = set(params)
+        for st in body:
+            for n in _walk_stmts(st):
+                if isinstance(n, ast.Name) and isinstance(
+                        n.ctx, (ast.Store, ast.Del)):
+                    locals_.add(n.id)
+        ren = _Renamer(locals_, suffix)
+        body = [ren.visit(st) for st in body]
+        pre = []
+        for p_, a in zip(params, call.args):
+            b = ast.copy_location(ast.Assign(
+                [ast.Name(p_ + suffix, ast.Store())], acopy(a)), s)
+            b._inline_param = True
+            pre.append(b)
+        # locate the yield
+        idx = None
+        for i, st in enumerate(body):
+            if isinstance(st, ast.Expr) and isinstance(st.value, ast.Yield):
+                idx, form = i, "plain"
+            elif isinstance(st, ast.Try) and len(st.body) == 1 and \
+                    isinstance(st.body[0], ast.Expr) and isinstance(
+                        st.body[0].value, ast.Yield) and not st.handlers \
+                    and not st.orelse:
+                idx, form = i, "try"
+        if idx is None:
+            return None
+        for j, st in enumerate(body):
+            if j != idx and any(isinstance(n, (ast.Yield, ast.YieldFrom))
+                                for n in ast.walk(st)):
+                return None
+        ystmt = body[idx] if form == "plain" else body[idx].body[0]
+        bind = []
+        if s.items[0].optional_vars is not None:
+            val = ystmt.value.value or ast.Constant(None)
+            bind = [ast.copy_location(ast.Assign(
+                [s.items[0].optional_vars], val), s)]
+        inner = self._block(list(s.body), stack, depth)
+        if form == "try":
+            mid = [ast.copy_location(ast.Try(
+                body=bind + inner, handlers=[], orelse=[],
+                finalbody=body[idx].finalbody), s)]
+        else:
+            mid = bind + inner
+        out = pre + body[:idx] + mid + body[idx + 1:]
+        self.inlined.append(name)
+        for st in out:
+            ast.fix_missing_locations(st)
+        return self._block(out, stack + (name,), depth + 1) \
+            if False else out
+
+    def _resolve_any(self, call):
+        """Like _resolve but also accepts decorated (context manager)
+        methods."""
+        f = call.func
+        if isinstance(f, ast.Attribute) and isinstance(f.value, ast.Name) \
+                and f.value.id in ("self", "cls") and self.cls is not None:
+            r = self.cls.lookup(f.attr)
+            if r is None:
+                return None
+            node = r[2] if len(r) > 2 else r[1]
+            if isinstance(node, (ast.FunctionDef, ast.AsyncFunctionDef)):
+                return ("method", f.attr, node)
+            return None
+        return self._resolve(call)
+
     def _stmt(self, s, stack, depth):
+        if isinstance(s, (ast.With, ast.AsyncWith)):
+            out = self._inline_cm(s, stack, depth)
+            if out is not None:
+                return out
         s = self._expr_inline(s, stack, depth)
         # recurse into compound statements first
         for fld in ("body", "orelse", "finalbody"):
